@@ -135,7 +135,10 @@ Allowed(e, n) ==
         \cup (IF Store = "mem" /\ ~IgnoreErrors /\ mode.kind \in {"raise", "setraise"} THEN {RaiseClient} ELSE {})
 
 (* -- actions ---------------------------------------------------------------- *)
-ViewRec == [src |-> source, fs |-> fs, junk |-> junk, mode |-> mode]
+\* the observable projection of a state (entries as a set of records: JSON-friendly)
+ViewRec == [src |-> source,
+            fs |-> {[n |-> k[1], c |-> k[2], e |-> fs[k]] : k \in {x \in Keys : fs[x] # None}},
+            junk |-> junk, mode |-> mode]
 Emit(op, res, allowed) ==
     EmitGraph => PrintT(ToJson([s |-> ViewRec, a |-> op, res |-> res, allowed |-> allowed, t |-> ViewRec']))
 
